@@ -12,6 +12,7 @@ import (
 
 	"github.com/kubewharf/kubebrain/pkg/backend"
 	"github.com/kubewharf/kubebrain/pkg/backend/coder"
+	"github.com/kubewharf/kubebrain/pkg/storage"
 )
 
 // C10 — internal key encoding is reversible and order-preserving
@@ -286,3 +287,223 @@ func FuzzC10(f *testing.F) {
 		}
 	})
 }
+
+// ---------------------------------------------------------------------------------------------------------------
+// concurrent use: the coder is shared by every request goroutine of a node; encoding one key must not disturb the
+// encoding of another
+
+type c10ConcCase struct {
+	Lanes  [][]c10Rec // one list of records per goroutine
+	Rounds int
+}
+
+func genC10Conc(t *rapid.T) interface{} {
+	c := &c10ConcCase{Rounds: rapid.SampledFrom([]int{50, 200, 1000}).Draw(t, "rounds")}
+	nl := rapid.IntRange(2, 6).Draw(t, "lanes")
+	for l := 0; l < nl; l++ {
+		var recs []c10Rec
+		for i := 0; i < rapid.IntRange(1, 5).Draw(t, "nrec"); i++ {
+			recs = append(recs, c10Rec{K: genRawKey(t, "ck"), R: genRev().Draw(t, "cr")})
+		}
+		c.Lanes = append(c.Lanes, recs)
+	}
+	return c
+}
+
+func runC10Conc(ci interface{}, st *CaseStats) error {
+	c := ci.(*c10ConcCase)
+	cd := coder.NewNormalCoder()
+	errs := make(chan error, len(c.Lanes))
+	start := make(chan struct{})
+	for _, lane := range c.Lanes {
+		go func(recs []c10Rec) {
+			<-start
+			var held []byte
+			var heldRec c10Rec
+			for round := 0; round < c.Rounds; round++ {
+				for _, r := range recs {
+					enc := cd.EncodeObjectKey(r.K, r.R)
+					idx := cd.EncodeRevisionKey(r.K)
+					k, rev, err := cd.Decode(enc)
+					if err != nil || !bytes.Equal(k, r.K) || rev != r.R {
+						errs <- fmt.Errorf("with %d goroutines encoding at once, Encode(%q,%d) decodes to (%q,%d,%v)", len(c.Lanes), r.K, r.R, k, rev, err)
+						return
+					}
+					if k2, rev2, err := cd.Decode(idx); err != nil || !bytes.Equal(k2, r.K) || rev2 != 0 {
+						errs <- fmt.Errorf("with %d goroutines encoding at once, the index key of %q decodes to (%q,%d,%v)", len(c.Lanes), r.K, k2, rev2, err)
+						return
+					}
+					// a key encoded earlier must still be what it was (results must not share memory)
+					if held != nil {
+						if k3, rev3, err := cd.Decode(held); err != nil || !bytes.Equal(k3, heldRec.K) || rev3 != heldRec.R {
+							errs <- fmt.Errorf("an encoded key changed after later encodings: Encode(%q,%d) now decodes to (%q,%d,%v)", heldRec.K, heldRec.R, k3, rev3, err)
+							return
+						}
+					}
+					held, heldRec = enc, r
+				}
+			}
+			errs <- nil
+		}(lane)
+	}
+	close(start)
+	var first error
+	for range c.Lanes {
+		if err := <-errs; err != nil && first == nil {
+			first = err
+		}
+	}
+	short := 0
+	for _, lane := range c.Lanes {
+		for _, r := range lane {
+			if len(r.K) <= 4 {
+				short++
+			}
+		}
+	}
+	if short >= 2 {
+		st.Nontrivial()
+	}
+	return first
+}
+
+var specC10Conc = &Spec{
+	ID:   "C10",
+	Rule: "concurrent mode: case = 2..6 goroutines, each encoding and decoding its own 1..5 (raw key, revision) records 50..1000 times through one shared coder, also re-decoding the key it encoded one step earlier; oracle = round trip per goroutine. Non-trivial = at least two keys of <= 4 bytes (results that fit into small shared buffers); distinct = SHA-1 of the case",
+	Gen:  genC10Conc,
+	New:  func() interface{} { return &c10ConcCase{} },
+	Run:  runC10Conc,
+	Assumptions: []string{
+		"schedules are whatever the Go scheduler produces on the available cores (not enumerated)",
+	},
+}
+
+func TestC10Conc(t *testing.T) { RunProperty(t, specC10Conc) }
+
+// ---------------------------------------------------------------------------------------------------------------
+// partition bounds: the pieces an engine advertises for an encoded range must tile exactly that range (the scan
+// workers read what the pieces say, so a piece that reaches beyond the encoded bounds returns foreign keys)
+
+type c10PartsCase struct {
+	Splits []c10Rec // region borders of the TiKV mock: internal keys of these (raw key, revision) pairs
+	Start  B
+	End    B
+}
+
+func genC10Parts(t *rapid.T) interface{} {
+	c := &c10PartsCase{}
+	var pool []B
+	for i := 0; i < rapid.IntRange(1, 6).Draw(t, "nsplits"); i++ {
+		k := genRawKey(t, "sk")
+		if len(pool) > 0 && DrawBool(t, 40, "derive") {
+			base := pool[DrawIntn(t, len(pool), "base")]
+			k = append(append(B{}, base...), byte(genAlphaByte().Draw(t, "ext")))
+		}
+		pool = append(pool, k)
+		c.Splits = append(c.Splits, c10Rec{K: k, R: genRev().Draw(t, "sr")})
+	}
+	pick := func(label string) B {
+		if DrawBool(t, 60, label+".fromPool") {
+			k := pool[DrawIntn(t, len(pool), label+".i")]
+			switch rapid.IntRange(0, 3).Draw(t, label+".how") {
+			case 0:
+				return k
+			case 1:
+				return append(append(B{}, k...), 0x25)
+			case 2:
+				if len(k) > 0 {
+					return k[:len(k)-1]
+				}
+			}
+			return B(backend.PrefixEnd(k))
+		}
+		return genRawKey(t, label)
+	}
+	c.Start, c.End = pick("start"), pick("end")
+	return c
+}
+
+func runC10Parts(ci interface{}, st *CaseStats) error {
+	c := ci.(*c10PartsCase)
+	cd := coder.NewNormalCoder()
+	a, b := []byte(c.Start), []byte(c.End)
+	if bytes.Compare(a, b) > 0 {
+		a, b = b, a
+	}
+	if bytes.Equal(a, b) || len(b) == 0 {
+		return nil
+	}
+	for _, x := range append(append([]byte{}, a...), b...) {
+		if x <= '$' {
+			st.Label("skipped:bound-outside-alphabet")
+			return nil // e.g. the successor of the empty prefix: not a key over the documented alphabet
+		}
+	}
+	ia, ib := cd.EncodeObjectKey(a, 0), cd.EncodeObjectKey(b, 0)
+	var splits [][]byte
+	for _, s := range c.Splits {
+		splits = append(splits, cd.EncodeObjectKey(s.K, s.R))
+	}
+	sort.Slice(splits, func(i, j int) bool { return bytes.Compare(splits[i], splits[j]) < 0 })
+	var ded [][]byte
+	inner := 0
+	for i, k := range splits {
+		if i == 0 || !bytes.Equal(k, splits[i-1]) {
+			ded = append(ded, k)
+			if bytes.Compare(k, ia) > 0 && bytes.Compare(k, ib) < 0 {
+				inner++
+			}
+		}
+	}
+	eng, err := OpenEngine(EngTiKV, ded...)
+	if err != nil {
+		return Inconclusivef("engine: %v", err)
+	}
+	defer eng.Close()
+	ps, err := eng.KV.GetPartitions(ClientCtx(0), ia, ib)
+	if err != nil {
+		return fmt.Errorf("GetPartitions(%q,%q): %v", ia, ib, err)
+	}
+	if len(ps) == 0 {
+		return fmt.Errorf("GetPartitions(%q,%q) returned no piece", ia, ib)
+	}
+	what := fmt.Sprintf("engine split at %q, range [%q,%q) encoded as [%q,%q): pieces %v", ded, a, b, ia, ib, fmtParts(ps))
+	if !bytes.Equal(ps[0].Start, ia) {
+		return fmt.Errorf("%s: the first piece does not start at the encoded lower bound", what)
+	}
+	if !bytes.Equal(ps[len(ps)-1].End, ib) {
+		return fmt.Errorf("%s: the last piece does not end at the encoded upper bound", what)
+	}
+	for i := range ps {
+		if bytes.Compare(ps[i].Start, ps[i].End) >= 0 {
+			return fmt.Errorf("%s: piece %d is empty or inverted", what, i)
+		}
+		if i > 0 && !bytes.Equal(ps[i].Start, ps[i-1].End) {
+			return fmt.Errorf("%s: piece %d does not start where piece %d ends", what, i, i-1)
+		}
+	}
+	st.Labelf("inner-borders:%d", inner)
+	if inner >= 1 && len(ded) > inner {
+		st.Nontrivial() // a border inside the range and one outside it
+	}
+	return nil
+}
+
+func fmtParts(ps []storage.Partition) string {
+	out := ""
+	for _, p := range ps {
+		out += fmt.Sprintf("[%q,%q) ", p.Start, p.End)
+	}
+	return out
+}
+
+var specC10Parts = &Spec{
+	ID:      "C10",
+	Rule:    "partition mode: case = 1..6 region borders of the TiKV mock cluster (internal keys of generated raw keys and revisions, keys derived from each other) + a raw range; the range is encoded and the engine is asked for its pieces. Oracle: the pieces tile exactly the encoded range (first starts at the encoded lower bound, last ends at the encoded upper bound, contiguous, ascending, none empty). Non-trivial = at least one border inside the range and one outside; distinct = SHA-1 of the case",
+	Gen:     genC10Parts,
+	New:     func() interface{} { return &c10PartsCase{} },
+	Run:     runC10Parts,
+	Engines: []string{EngTiKV + "+regions"},
+}
+
+func TestC10Parts(t *testing.T) { RunProperty(t, specC10Parts) }
